@@ -328,14 +328,19 @@ def make_replay(h, failing_descs, scratch, pool, logdir):
         text = open(lp, errors='replace').read()
     finally:
         pool.put(tdir)
-    m = re.search(r'```\n?(.*?#\[test\].*?)```', text, re.S)
-    if not m:
-        m2 = re.search(r'(/// Test generated for harness.*?\n}\n)', text, re.S)
-        if not m2:
-            return None, None, 'no concrete playback test produced (%s)' % st
-        test_src = m2.group(1)
-    else:
-        test_src = m.group(1)
+    # Kani prints one unit test per failed check and per satisfied cover point: keep the failed checks only
+    blocks = re.findall(r'```\n(.*?)```', text, re.S)
+    tests = [b for b in blocks if '#[test]' in b and not re.search(r'/// Check for `cover`', b)]
+    if not tests:
+        return None, None, 'no concrete playback test produced for a failed check (%s)' % st
+    # de-duplicate identical value vectors, cap the number of tests
+    seen, uniq = set(), []
+    for b in tests:
+        key = re.sub(r'fn kani_concrete_playback_\w+', 'fn T', b)
+        if key not in seen:
+            seen.add(key)
+            uniq.append(b)
+    test_src = '\n'.join(uniq[:6])
     return run_replay_source(h['file'], h['name'], test_src, failing_descs, scratch, logdir)
 
 
@@ -349,8 +354,7 @@ def run_replay_source(hfile, hname, test_src, failing_descs, scratch, logdir, st
     shutil.copytree(ACTIVE['hdir'], hd)
     with open(os.path.join(hd, hfile + '_h.rs'), 'a') as f:
         f.write('\n// ---- concrete playback test appended by bin/check ----\n' + test_src + '\n')
-    tname = re.search(r'fn (kani_concrete_playback_\w+)', test_src)
-    tname = tname.group(1) if tname else 'kani_concrete_playback'
+    tname = 'kani_concrete_playback_' + hname
     outcomes = {}
     for prof in ('dev', 'release'):
         cmd = ['cargo', 'kani', 'playback', '-Z', 'concrete-playback', '--lib', '--features', FEATURES_REPLAY, '--', tname]
